@@ -48,7 +48,7 @@ def run(tier):
     # ------------------------------------------------------------------ (a) termination: shared rules
     tmp = Result('C04')
     c04.flow_rules(c, tmp, None)
-    keep_rules = ('VALIDATE-BEFORE-WRITE', 'SAME-VALUE(validated rate', 'DOM(get_datarate')
+    keep_rules = ('VALIDATE-BEFORE-WRITE', 'SAME-VALUE(validated rate', 'DOM(get_datarate', 'COVER(draw')
     n_shared = 0
     for i in tmp.instances:
         if (i.get('rule') or '').startswith(keep_rules):
@@ -314,8 +314,8 @@ def run(tier):
     for bfa, bb, t in c.pf.callers_of('TxConfig::adjust_power', crates={'lorawan_device'}):
         n_adj += 1
         fn = bfa.body.path.replace(D, '')
-        cap = peel(term_of_operand(bfa, t.args[1]))
-        gain = peel(term_of_operand(bfa, t.args[2]))
+        cap = peel(rules.resolve_captures(c.pf, bfa, term_of_operand(bfa, t.args[1])))
+        gain = peel(rules.resolve_captures(c.pf, bfa, term_of_operand(bfa, t.args[2])))
         okg = field_path(gain)[1][-2:] == ['board_eirp', 'antenna_gain']
         res.require(okg, 'C09:%s:antenna-gain' % fn, 'antenna gain argument is %s' % term_str(gain), short_site(bfa, bb), 'PROVENANCE(antenna gain)', instance='%s: adjust_power(.., board antenna gain)' % fn)
         # the cap must be bounded by the board maximum on every path: board max itself, or min(.., board max)
@@ -326,6 +326,18 @@ def run(tier):
             if is_call(x, 'cmp::min') or is_call(x, 'Ord::min'):
                 return any(bounded_by_board(a) for a in x[2])
             return False
+        # ... and by the level the network last commanded (configuration.tx_power when it is Some)
+        def bounded_by_commanded(x):
+            x = peel(x)
+            if is_call(x, 'Option::unwrap_or') and field_path(x[2][0])[1][-2:] == ['configuration', 'tx_power']:
+                return True
+            if is_call(x, 'cmp::min') or is_call(x, 'Ord::min'):
+                return any(bounded_by_commanded(a) for a in x[2])
+            return False
+        # one reviewed exception: a join request is sent outside any session, there is no commanded level to honour
+        res.require(bounded_by_commanded(cap) or fn == 'mac::Mac::join_otaa', 'C09:%s:power-cap-ignores-commanded-level' % fn,
+                    'the cap handed to adjust_power is %s: the TX power level commanded by the network (configuration.tx_power) does not limit this transmission' % term_str(cap)[:120],
+                    short_site(bfa, bb), 'BOUND(cap <= commanded level)', instance='%s: power cap bounded by the commanded level' % fn)
         res.require(bounded_by_board(cap), 'C09:%s:power-cap-not-bounded-by-board-maximum' % fn,
                     'the cap handed to adjust_power is %s: when the network has commanded a level, the board maximum no longer limits the conducted power' % term_str(cap)[:120],
                     short_site(bfa, bb), 'BOUND(cap <= board max_power)', instance='%s: power cap bounded by the board maximum' % fn)
